@@ -337,8 +337,10 @@ func srKfA(g *hx.Gen, id int) hx.Case {
 	return c.run("kf.C18-a", id)
 }
 
-// C18-b witnesses: a relative Location below a request path of two or more segments is joined
-// onto the parent directory WITHOUT a separator (/s/a + b ⇒ /sb instead of /s/b).
+// kf.C18-b: the witnesses of the former finding C18-b (a relative Location below a request path of
+// two or more segments was joined onto the parent directory WITHOUT a separator: /s/a + b ⇒ /sb
+// instead of /s/b), repaired in util.RedirectedURL; regression cases: the client must get the
+// target's answer.
 func srKfB(g *hx.Gen, id int) hx.Case {
 	var c srCase
 	switch id % 3 {
@@ -347,7 +349,7 @@ func srKfB(g *hx.Gen, id int) hx.Case {
 	case 1:
 		c = srFixed([]srNode{{Path: "/x/y/z", Redirect: true, Status: 307, Location: "w?k=v", Intended: 1}, {Path: "/x/y/w", Status: 200, Body: "target"}})
 	default:
-		// the mis-resolved URL exists and answers: the client receives the wrong document
+		// the formerly mis-resolved URL exists and answers: the client must not receive its document
 		c = srFixed([]srNode{{Path: "/s/a", Redirect: true, Location: "b", Intended: 1}, {Path: "/s/b", Status: 200, Body: "target"}, {Path: "/sb", Status: 200, Body: "other"}})
 	}
 	return c.run("kf.C18-b", id)
